@@ -152,3 +152,11 @@ Theorem C06_source_effects :
   (forall q k, peq (src_handle_unrecognized_method q k) (handle_unrecognized_method q k)).
 Proof. repeat split; [exact tie_handle_cache_miss|exact tie_handle_validation_response|exact tie_handle_unrecognized_method]. Qed.
 Print Assumptions C06_source_effects.
+
+(* ... and StoreResponse (hop-by-hop fields removed first, the variant key, the entry written before the index, the index
+   entry appended or replaced), serveFromCache and handleStaleWhileRevalidate (qualified no-cache fields removed, Age, status,
+   the background revalidation started with the stored validators) *)
+Theorem C06_source_effects2 :
+  (forall q r k refs a b i, peq (src_store_response q r k refs a b i) (store_response q r k refs a b i)).
+Proof. exact tie_store_response. Qed.
+Print Assumptions C06_source_effects2.
